@@ -37,11 +37,12 @@ def menu_for(n, remaining):
 
 
 class EnvExplorer:
-    def __init__(self, data: bytes, drive, *, stateful=True, max_execs=400_000, inspect=True, allow_close=False, waiting=None):
+    def __init__(self, data: bytes, drive, *, stateful=True, max_execs=400_000, inspect=True, allow_close=False, waiting=None, msg_max=None):
         """drive(sock, on_item) -> observation (any comparable value); must create a fresh generator."""
         self.data = data
         self.drive = drive
         self.allow_close = allow_close  # crash points: the peer may close at any choice point
+        self.msg_max = msg_max          # message-preserving socket: messages of 1..msg_max bytes (see ScriptedSocket)
         self.waiting = waiting          # waiting(bytes delivered, items yielded) -> True if a complete record is buffered but not yet yielded
         self.stateful = stateful
         self.inspect = inspect and stateful
@@ -81,7 +82,7 @@ class EnvExplorer:
                     if key is None:
                         self.uninspectable = True
                     else:
-                        k = (sock.delivered, sock.closed, n_items[0], yielded.digest(), n, key)
+                        k = (sock.delivered, sock.closed, n_items[0], yielded.digest(), n, key, sock.truncated)
                         if k in self.seen:
                             raise Pruned()
                         self.seen.add(k)
@@ -90,7 +91,7 @@ class EnvExplorer:
             ex.menus.append(menu)
             return menu[ci]
 
-        sock = ScriptedSocket(self.data, decide, inspect=self.inspect)
+        sock = ScriptedSocket(self.data, decide, inspect=self.inspect, msg_max=self.msg_max)
         ex.sock = sock
         try:
             ex.obs = self.drive(sock, on_item)
